@@ -84,6 +84,13 @@ class Registry:
     def __init__(self):
         self.contracts = {}
         self.functions = set()
+        self.lib_install = []        # functions lib -> None adding library models (e.g. the event heap)
+
+    def make_lib(self):
+        lib = Lib()
+        for f in self.lib_install:
+            f(lib)
+        return lib
 
     def add(self, c):
         self.contracts[c.qualname] = c
@@ -283,12 +290,17 @@ def check_split(ob, timeout_ms):
     return worst[0], total, worst[1], worst[2], worst[3]
 
 
-def check_one(ob, timeout_ms):
+def check_one(ob, timeout_ms, seed=0, mbqi=True):
     g = z3.simplify(ob.goal)
     if z3.is_true(g):
         return 'unsat', 0.0, None, 'trivial', z3.Solver()
     sol = z3.Solver()
     sol.set('timeout', timeout_ms)
+    if seed:
+        sol.set('random_seed', seed)
+        sol.set('smt.random_seed', seed) if False else None
+    if not mbqi:
+        sol.set('smt.mbqi', False)
     for f in ob.pc:
         sol.add(f)
     sol.add(Not(ob.goal))
@@ -334,7 +346,7 @@ def verify_unit(contract_qual, case_name, registry_factory, tier='quick', proof_
         out['file'], out['sha'] = c.file, unit.sha
         if unit.node is None:
             raise Unbindable('function %s not found in %s' % (contract_qual, c.file))
-        lib = Lib()
+        lib = reg.make_lib()
         tt = time.time()
         obls, npaths, reached, entry_pc, finals = explore(unit, lib)
         out['t_explore_proof'] = round(time.time() - tt, 2)
@@ -381,7 +393,7 @@ def verify_unit(contract_qual, case_name, registry_factory, tier='quick', proof_
             casef = [x for x in cf.cases if x.name == case_name][0]
             unitf = Unit(cf, casef, regf)
             tt2 = time.time()
-            oblsf, npf, reachedf, entry_pcf, finalsf = explore(unitf, Lib())
+            oblsf, npf, reachedf, entry_pcf, finalsf = explore(unitf, regf.make_lib())
             out['t_explore_finite'] = round(time.time() - tt2, 2)
             sol = z3.Solver()
             sol.set('timeout', finite_timeout_ms)
@@ -427,6 +439,12 @@ def verify_unit(contract_qual, case_name, registry_factory, tier='quick', proof_
                 if sp is not None:
                     r, dt2, model, reason, _ = sp
                     dt += dt2
+            # solver instability guard: other seeds / pure E-matching before giving up
+            for seed, mbqi in ((11, True), (0, False), (23, True)):
+                if r != 'unknown':
+                    break
+                r, dt2, model, reason, _ = check_one(ob, proof_timeout_ms, seed=seed, mbqi=mbqi)
+                dt += dt2
             rec['seconds'] = round(rec['seconds'] + dt, 4)
             rec['result'], rec['reason'] = r, reason
             if r == 'unsat':
@@ -464,5 +482,7 @@ def verify_many(jobs, nproc=12):
     if len(jobs) <= 1 or nproc <= 1:
         return [_worker(j) for j in jobs]
     ctx = mp.get_context('fork')
-    with ctx.Pool(min(nproc, len(jobs))) as pool:
+    # one fresh process per unit: sort/constant names (and hence solver behaviour) do not depend on which
+    # units happened to run earlier in the same worker
+    with ctx.Pool(min(nproc, len(jobs)), maxtasksperchild=1) as pool:
         return pool.map(_worker, jobs, chunksize=1)
